@@ -574,7 +574,7 @@ func (f *family) runLenient(sc *scenario) {
 // ---- C10 entry ----
 
 func runC10(r *mon.Run, replay string) {
-	r.Rule("fault table = RPC x host->renter message x field (reflection walk of the typed message: every byte array, currency, integer, bool, string, time, slice (first and last element), pointer, resolution type) x operator {flip low/high bit, zero, max, +1, -1, truncate, extend, duplicate, swap neighbours, swap with the same field of another recorded exchange} plus message-level faults {RPCError injection, cut before/after, half-sent message, trailing garbage, whole message of another exchange, silent host, raw sector data flip/truncate/extend/zero} plus re-signing with the real host key after altering the signed object; plus coherent alternatives built by the man-in-the-middle with core's proof builders (valid proof for another range / leaf / root set, alone and with a forged final signature); plus a LENIENT hostile host holding the real host key: for caller parameters that are well-formed and ill-formed (free index lists with duplicates in every position pattern, out of order, out of range, empty; sector-roots ranges on an empty contract, at and beyond the end, zero length, overflowing; reads with unaligned offset / unaligned end / zero length / beyond the sector; writes of unaligned or zero length; empty / repeated / unknown append lists) it executes the request exactly as received where the honest server refuses it, builds the matching proof and countersigns, and - per request - also answers with a proof built for ANOTHER index set / range than the requested one (an in-range substitute for an out-of-range index or range, one appended root more or fewer) or with one subtree hash / leaf hash / root / accepted flag too few or too many; every client call is guarded, a panic is the violation client-panic:<rpc>; plus HISTORIES append -> free (some) -> append / free / roots / fund / replenish / renew / refresh, so that contracts with Capacity > Filesize go through every revision-returning RPC, and forgers that recompute the append answer consistently for a WRONG old leaf count (capacity-shaped tree, file size +-1, +2, double, half, zero: subtree roots, new root and final signature) and the free answer over the halved view of the tree (same root, ceil(n/2) leaves); when the client rejects an honest, model-correct answer the variant is counted (honest_answer_rejected_by_client:<rpc>), gets no field table, and the forgery rows still decide; plus a FOREIGN PEER: every variant of every RPC is run over a transport whose PeerKey() is not the host key of the contract, once with a peer that runs the exchange correctly (the honest server does) but countersigns every revision / contract / renewal / price table with its transport key, once with the genuine host signatures - success must still carry a host signature valid under the CONTRACT's host key - the oracle then compares the result with a reference model of the CALLER's parameters (set semantics for free, the renter-known roots for sector roots, the stored bytes for read), independent of the client's own arithmetic; the table is enumerated completely (exhaustive over the table), thorough adds PRNG double mutations; a case is non-trivial when the fault changed the bytes the renter received; oracle only when the client call returned success")
+	r.Rule("fault table = RPC x host->renter message x field (reflection walk of the typed message: every byte array, currency, integer, bool, string, time, slice (first and last element), pointer, resolution type) x operator {flip low/high bit, zero, max, +1, -1, truncate, extend, duplicate, swap neighbours, swap with the same field of another recorded exchange} plus message-level faults {RPCError injection, cut before/after, half-sent message, trailing garbage, whole message of another exchange, silent host, raw sector data flip/truncate/extend/zero} plus re-signing with the real host key after altering the signed object; plus coherent alternatives built by the man-in-the-middle with core's proof builders (valid proof for another range / leaf / root set, alone and with a forged final signature); plus a LENIENT hostile host holding the real host key: for caller parameters that are well-formed and ill-formed (free index lists with duplicates in every position pattern, out of order, out of range, empty; sector-roots ranges on an empty contract, at and beyond the end, zero length, overflowing; reads with unaligned offset / unaligned end / zero length / beyond the sector; writes of unaligned or zero length; empty / repeated / unknown append lists) it executes the request exactly as received where the honest server refuses it, builds the matching proof and countersigns, and - per request - also answers with a proof built for ANOTHER index set / range than the requested one (an in-range substitute for an out-of-range index or range, one appended root more or fewer) or with one subtree hash / leaf hash / root / accepted flag too few or too many; every client call is guarded, a panic is the violation client-panic:<rpc>; reads also cover zero-tailed, zero-headed and all-zero sectors (whole and partial), answered truncated at every 64-byte-aligned class (one leaf, inside the data, at and just behind the data/zero boundary, deep inside the zeros, one leaf short) with an empty proof, the honest proof of the shorter range, or the proof of the requested range; plus HISTORIES append -> free (some) -> append / free / roots / fund / replenish / renew / refresh, so that contracts with Capacity > Filesize go through every revision-returning RPC, and forgers that recompute the append answer consistently for a WRONG old leaf count (capacity-shaped tree, file size +-1, +2, double, half, zero: subtree roots, new root and final signature) and the free answer over the halved view of the tree (same root, ceil(n/2) leaves); when the client rejects an honest, model-correct answer the variant is counted (honest_answer_rejected_by_client:<rpc>), gets no field table, and the forgery rows still decide; plus a FOREIGN PEER: every variant of every RPC is run over a transport whose PeerKey() is not the host key of the contract, once with a peer that runs the exchange correctly (the honest server does) but countersigns every revision / contract / renewal / price table with its transport key, once with the genuine host signatures - success must still carry a host signature valid under the CONTRACT's host key - the oracle then compares the result with a reference model of the CALLER's parameters (set semantics for free, the renter-known roots for sector roots, the stored bytes for read), independent of the client's own arithmetic; the table is enumerated completely (exhaustive over the table), thorough adds PRNG double mutations; a case is non-trivial when the fault changed the bytes the renter received; oracle only when the client call returned success")
 	r.Assume("core (rhp/v4 merkle, sighash, Revise* functions) is the trusted base for computing expected roots and successor revisions")
 	r.Assume("the in-repo server, EphemeralContractor and EphemeralSectorStore are the honest peer behind the man-in-the-middle; transports' own framing (siamux/quic) is not mutated")
 	r.Extra("exhaustive", true)
@@ -603,6 +603,7 @@ func runC10(r *mon.Run, replay string) {
 	}
 	jobs := []job{
 		{buildSectorFamily, 0, 1},
+		{buildSectorZeroFamily, 0, 1},
 		{buildRootsFamily, 0, 1},
 		{buildAppendFreeFamily, 0, 1},
 		{buildAccountFamily, 0, 1},
@@ -674,6 +675,8 @@ func runC10(r *mon.Run, replay string) {
 			r.Floor("lenient_host:answers_built_for_another_request", 150)
 		}
 		r.Floor("lenient_host_cases:read", 8)
+		r.Floor("reads_answered_truncated", 150)
+		r.Floor("full_sector_reads_of_zero_tailed_sectors_answered_truncated", 30)
 		floorUnlessRejected("append", "lenient_host_cases:append", 35)
 		r.Floor("lenient_host_cases:write", 4)
 		r.Floor("lenient_host:client_success", 10)
@@ -729,8 +732,18 @@ func randomSector(rng *rand.Rand) *[rhp4.SectorSize]byte {
 
 // ---- family: read / write / verify ----
 
-func buildSectorFamily(f *family) error {
+func buildSectorFamily(f *family) error { return buildSectorFamilyPart(f, false) }
+
+// buildSectorZeroFamily is the read scenario over the zero-tailed /
+// zero-headed / all-zero sectors, on a lab of its own (whole-sector reads
+// are the most expensive exchanges of the check).
+func buildSectorZeroFamily(f *family) error { return buildSectorFamilyPart(f, true) }
+
+func buildSectorFamilyPart(f *family, zeroPart bool) error {
 	f.name = "sector"
+	if zeroPart {
+		f.name = "sector-zero"
+	}
 	l, c, err := newLabWithContract(rhpmitm.Options{}, types.Siacoins(200), types.Siacoins(100))
 	if err != nil {
 		return err
@@ -740,8 +753,16 @@ func buildSectorFamily(f *family) error {
 		return err
 	}
 	sectors := map[string]*[rhp4.SectorSize]byte{"A": randomSector(f.rng), "B": randomSector(f.rng)}
+	// what an upload of less than a full sector looks like (the renter pads with
+	// zeros): Z has 4160 bytes of data and a zero TAIL, Y the mirror image (zero
+	// HEAD, data in the last 4160 bytes), 0 is all zeros
+	const dataLen = 4160
+	zt, zh := new([rhp4.SectorSize]byte), new([rhp4.SectorSize]byte)
+	copy(zt[:dataLen], sectors["A"][:dataLen])
+	copy(zh[rhp4.SectorSize-dataLen:], sectors["B"][:dataLen])
+	sectors["Z"], sectors["Y"], sectors["0"] = zt, zh, new([rhp4.SectorSize]byte)
 	roots := map[string]types.Hash256{}
-	for _, k := range []string{"A", "B"} {
+	for _, k := range []string{"A", "B", "Z", "Y", "0"} {
 		root, err := l.WriteSector(sectors[k][:])
 		if err != nil {
 			return err
@@ -767,6 +788,15 @@ func buildSectorFamily(f *family) error {
 		"A:last64":     {"A", rhp4.SectorSize - 64, 64},
 		"B:whole":      {"B", 0, rhp4.SectorSize},
 		"A:65536+8192": {"A", 65536, 8192},
+		// zero-tailed / zero-headed / all-zero sectors, whole and partial reads
+		"Z:whole":     {"Z", 0, rhp4.SectorSize},
+		"Z:0+8192":    {"Z", 0, 8192},
+		"Z:4096+4096": {"Z", 4096, 4096},
+		"Z:8192+4096": {"Z", 8192, 4096},
+		"Y:whole":     {"Y", 0, rhp4.SectorSize},
+		"Y:0+8192":    {"Y", 0, 8192},
+		"0:whole":     {"0", 0, rhp4.SectorSize},
+		"0:64+4096":   {"0", 64, 4096},
 		// caller parameters for the lenient host: unaligned offset with aligned
 		// end (the client's own validation lets these through), unaligned end,
 		// zero length, beyond the sector
@@ -782,8 +812,9 @@ func buildSectorFamily(f *family) error {
 		"A:64+64":      {"A", 64, 64},
 	}
 	read := &scenario{rpc: "read", nHost: 1,
-		variants: []string{"A:0+64", "A:192+128", "B:0+64", "A:4096+4096", "A:last64", "B:whole", "A:65536+8192"},
-		lenient:  []string{"A:64+64", "A:32+32", "A:32+96", "A:96+32", "B:4100+60", "A:1+4095", "A:0+100", "A:0+0", "A:end-64+128", "A:end+64"}}
+		variants: []string{"A:0+64", "A:192+128", "B:0+64", "A:4096+4096", "A:last64", "B:whole", "A:65536+8192",
+			"Z:0+8192", "Z:whole", "Z:4096+4096", "Z:8192+4096", "Y:whole", "Y:0+8192", "0:whole", "0:64+4096"},
+		lenient: []string{"A:64+64", "A:32+32", "A:32+96", "A:96+32", "B:4100+60", "A:1+4095", "A:0+100", "A:0+0", "A:end-64+128", "A:end+64"}}
 	read.prepare = func(variant string) (*exchange, error) {
 		v := readVariants[variant]
 		var buf bytes.Buffer
@@ -809,9 +840,63 @@ func buildSectorFamily(f *family) error {
 			add(v.off-64, v.len)
 			add(v.off-64, v.len+64)
 		}
+		// truncated answers: DataLength a multiple of 64 below the requested
+		// length, only that prefix is sent, with an EMPTY proof or with the honest
+		// proof of the shorter range. Truncation points: one leaf, inside the
+		// data, at the data/zero boundary, just behind it, deep inside the zero
+		// part, one leaf short of the end
+		var truncs []string
+		seenT := map[uint64]bool{}
+		for _, n := range []uint64{64, 128, v.len / 4 / 64 * 64, v.len / 2 / 64 * 64, v.len - 64, v.len - 4096} {
+			if n > 0 && n < v.len && n%64 == 0 && !seenT[n] {
+				seenT[n] = true
+				truncs = append(truncs, fmt.Sprint(n))
+			}
+		}
+		for _, edge := range []uint64{dataLen - 64, dataLen, dataLen + 64, dataLen + 4096, rhp4.SectorSize - dataLen, rhp4.SectorSize - dataLen + 64} {
+			if edge > v.off {
+				if n := edge - v.off; n > 0 && n < v.len && n%64 == 0 && !seenT[n] {
+					seenT[n] = true
+					truncs = append(truncs, fmt.Sprint(n))
+				}
+			}
+		}
+		var truncOps []mutation
+		modes := []string{"empty", "honest", "full"}
+		whole := v.off == 0 && v.len == rhp4.SectorSize
+		if whole && v.sec != "Z" && v.sec != "0" {
+			modes = modes[:1] // whole-sector reads are expensive: all modes on the zero-tailed ones
+		}
+		if whole && strings.ContainsAny(v.sec, "ZY0") {
+			alts = nil // other-range answers for whole reads are covered on sector B
+		}
+		for _, mode := range modes {
+			truncOps = append(truncOps, altOps(0, "alt-trunc-"+mode+":", truncs)...)
+		}
+		zeroTailed := v.sec == "Z" || v.sec == "0"
 		return &exchange{
-			customOps: altOps(0, "alt-range:", alts),
+			customOps: append(altOps(0, "alt-range:", alts), truncOps...),
 			custom: func(m *rhpmitm.Msg, mu mutation, seen *recorded) bool {
+				if rest, ok := strings.CutPrefix(mu.Op, "alt-trunc-"); ok && m.Err == nil {
+					mode, arg, _ := strings.Cut(rest, ":")
+					var n uint64
+					if _, err := fmt.Sscanf(arg, "%d", &n); err != nil || n == 0 || n >= v.len {
+						return false
+					}
+					resp := &rhp4.RPCReadSectorResponse{DataLength: n}
+					switch mode {
+					case "honest": // the valid proof of the shorter range
+						_, resp.Proof = rhpmitm.SectorRangeProof(sectors[v.sec], v.off, n)
+					case "full": // the valid proof of the REQUESTED range
+						_, resp.Proof = rhpmitm.SectorRangeProof(sectors[v.sec], v.off, v.len)
+					}
+					m.Obj, m.Raw = resp, append([]byte(nil), sectors[v.sec][v.off:v.off+n]...)
+					f.r.Count("reads_answered_truncated", 1)
+					if zeroTailed && v.off == 0 && v.len == rhp4.SectorSize {
+						f.r.Count("full_sector_reads_of_zero_tailed_sectors_answered_truncated", 1)
+					}
+					return true
+				}
 				if mu.Op == "lenient" {
 					// the lenient host serves whatever range it is asked for with the
 					// whole leaves covering it (a range proof cannot cover less) and
@@ -976,6 +1061,20 @@ func buildSectorFamily(f *family) error {
 			},
 		}, nil
 	}
+	var plain, zero []string
+	for _, v := range read.variants {
+		if strings.ContainsAny(v[:1], "ZY0") {
+			zero = append(zero, v)
+		} else {
+			plain = append(plain, v)
+		}
+	}
+	if zeroPart {
+		read.variants, read.lenient = zero, nil
+		f.scenarios = []*scenario{read}
+		return nil
+	}
+	read.variants = plain
 	f.scenarios = []*scenario{read, write, verify}
 	return nil
 }
